@@ -235,10 +235,30 @@ def body_mod(desc, F, *args):
             _subst_slice(q.algebra, lim, off)
         return q
 
-    q = run_untraced(mk)
     sols = R.Ref(data, []).group(desc["group"], "default")
     sols = [{k: norm(v) for k, v in mu.items()} for mu in sols]
-    res = evalQuery(g, q)
+    if desc.get("public"):
+        # the public route Graph.query(text) -> Result: the sequence is what iteration and .bindings show
+        ro = g.query(desc["text"])
+        rows = list(ro)     # first consumer: the result's generator branch
+        res = {"bindings": ro.bindings}
+        if len(list(ro)) != len(rows):
+            return "iterating the result twice gives different numbers of rows (%s)" % desc["name"]
+        shown = [b for b in ro.bindings if len(b) > 0]   # (iteration leaves out all-unbound solutions: recorded under C04)
+        if len(rows) != len(shown):
+            return "iteration of the result and its bindings have different lengths (%s)" % desc["name"]
+        for row, b in zip(rows, shown):
+            for v in ro.vars:
+                a = row[v]
+                try:
+                    bb = b[v]
+                except KeyError:
+                    bb = None
+                if (a is None) != (bb is None) or (a is not None and not a == bb):
+                    return "iteration of the result gives another sequence than its bindings (%s)" % desc["name"]
+    else:
+        q = run_untraced(mk)
+        res = evalQuery(g, q)
     outvars = [x if isinstance(x, str) else x[3] for x in m["select"]] or R.vars_in_scope(desc["group"])
     got = []
     for b in res["bindings"]:
@@ -451,6 +471,10 @@ def obligations(tier, seed):
             pre.append("0 <= x%d <= %d" % (k, n + 1))
         obs.append(dict(oid="m/%s/%s/%s" % (bname, mname, "".join(p + kd for p, kd in data)), family="mod", desc=desc,
                         sig=sig, pre=pre, budget=budget))
+        if bname == "bgp" and n == 2 and data[0][1] == "L" and not mods.get("limit") and not mods.get("offset"):
+            # the same query as text through Graph.query() (no symbolic LIMIT/OFFSET: they are substituted into the algebra)
+            obs.append(dict(oid="m/%s/%s/%s-public" % (bname, mname, "".join(p + kd for p, kd in data)), family="mod",
+                            desc=dict(desc, public=True), sig=sig, pre=pre, budget=budget))
 
     M = modsets()
     for mname, mods in M.items():
@@ -497,9 +521,18 @@ def bounds(tier):
                    "GROUP BY / implicit group with COUNT(*), COUNT, COUNT DISTINCT, SAMPLE, MIN, MAX, HAVING, ORDER BY on an aggregate alias) "
                    "and %d over UNION / OPTIONAL bases with unbound cells; data n in {0,2,3}%s rows, objects integer literals with symbolic "
                    "value or IRIs (kind by shape), subjects symbolic IRIs" % (len(modsets()), len(unbound_modsets()), "" if tier == "quick" else " plus 1 and 4"),
+            "public": "every modifier set without LIMIT/OFFSET also as text through Graph.query() -> Result: iteration (twice) and .bindings show the same sequence (n=2)",
             "outside": "SUM, AVG, GROUP_CONCAT, arithmetic on aggregates, REDUCED, blank nodes as sort keys, literals other than integers, n>4"}
 
 
 def finding_key(ob, cex, reason):
     import re
     return "mod|%s" % reason
+
+
+def untraced():
+    # the `public` obligations call Graph.query(text): rdflib's parser and translator run on concrete text, outside the tracer
+    from rdflib.plugins.sparql.algebra import translateQuery
+    from rdflib.plugins.sparql.parser import parseQuery
+    from ..driver import default_untraced
+    return default_untraced() + [parseQuery, translateQuery]
